@@ -6,6 +6,11 @@
 
 package slip
 
+// C07, package-wide: a function that evaluates Lisp forms itself forwards the
+// return-from / go marker an evaluation hands back: nothing more is evaluated
+// and the marker is the function's result.
+//@ every-function slip forward-exits
+
 // C05: NormalizeNumber returns its two arguments in one common numeric
 // representation; fixnum pairs are returned as they are.
 // a number that is a pointer to a mutable math/big value
